@@ -64,8 +64,14 @@ def build(cfg, rng=None):
     o = odl()
     try:
         op = r['fn'](cfg, rng)
+        sib = getattr(op, '_sim_sibling', None)
         for d in cfg.get('derive', []):
             op = derive(op, d, cfg)
+        if sib is not None and op is not None:
+            try:
+                op._sim_sibling = sib
+            except Exception:
+                pass
     except (Reject, HarnessError):
         raise
     except (o.OpNotImplementedError, NotImplementedError) as e:
@@ -870,7 +876,7 @@ def _func_prox(cfg, rng):
     opt(cfg, rng, 'F', PROX_FUNCTIONALS)
     opt(cfg, rng, 'wrap', PROX_WRAPS)
     f = _derived_functional(cfg, rng, _functional(cfg, rng))
-    return f.proximal(_sigma(cfg, rng, f))
+    return _with_sibling(cfg, rng, f.proximal, _sigma(cfg, rng, f))
 
 
 @recipe('functional_cc_proximal', c10=True, fam='proximal', weight=6)
@@ -878,7 +884,8 @@ def _func_ccprox(cfg, rng):
     opt(cfg, rng, 'F', PROX_FUNCTIONALS)
     opt(cfg, rng, 'wrap', PROX_WRAPS)
     f = _derived_functional(cfg, rng, _functional(cfg, rng))
-    return f.convex_conj.proximal(_sigma(cfg, rng, f))
+    return _with_sibling(cfg, rng, f.convex_conj.proximal,
+                         _sigma(cfg, rng, f))
 
 
 @recipe('NumericalGradient', fam='functional-derived')
@@ -988,7 +995,26 @@ def _prox_factory(cfg, rng):
                     'proximal_convex_conj_l2_squared') and \
                 opt(cfg, rng, 'sigma', ['scalar', 'scalar', 'elem']) == 'elem':
             sigma = SP.rand_elem(S, data(cfg, 'sigma'), positive=True)
-    return fac(sigma)
+    return _with_sibling(cfg, rng, fac, sigma)
+
+
+def _with_sibling(cfg, rng, fac, sigma):
+    """The operator `fac(sigma)`; with the option `sibling`, a second
+    operator from the *same factory object* with another step is attached as
+    `_sim_sibling` (the engine calls it first: whatever a factory shares
+    between its products must not leak from one into the other)."""
+    op = fac(sigma)
+    if opt(cfg, rng, 'sibling', [False, False, True]):
+        try:
+            if SP.is_elem(sigma):
+                sig2 = SP.rand_elem(sigma.space, data(cfg, 'sigma2'),
+                                    positive=True)
+            else:
+                sig2 = 1.7 * sigma + 0.1
+            op._sim_sibling = fac(sig2)
+        except Exception:
+            pass
+    return op
 
 
 # ==========================================================================
